@@ -138,8 +138,12 @@ impl<T: Read + Seek> ClassRead for T {
         Ok(buf)
     }
     fn read_u8_vec(&mut self, size: usize) -> Result<Vec<u8>> {
-        let mut vec = std::vec::from_elem(0, size);
-        self.read_exact(&mut vec)?;
+        // Don't trust `size` for the allocation: it comes from the input and may be way larger than the data.
+        let mut vec = Vec::new();
+        self.by_ref().take(size as u64).read_to_end(&mut vec)?;
+        if vec.len() != size {
+            bail!("couldn't read {size} bytes, the data ended after {}", vec.len());
+        }
         Ok(vec)
     }
 }
